@@ -2,7 +2,11 @@
 package main
 
 import (
+	srand "crypto/rand"
+	"errors"
+	"io"
 	"sync"
+	"sync/atomic"
 	"encoding/json"
 	"fmt"
 	"math/big"
@@ -38,6 +42,23 @@ func (s *chunkSource) Int63() int64 {
 	return w
 }
 func (s *chunkSource) Seed(int64) {}
+
+// faultReader stands in for the system's entropy source: it fails at once, after one byte, or reports EOF
+type faultReader struct{ kind string }
+
+func (f faultReader) Read(p []byte) (int, error) {
+	switch f.kind {
+	case "short":
+		if len(p) > 0 {
+			p[0] = 0xA5
+			return 1, errors.New("entropy source came up short")
+		}
+		return 0, errors.New("entropy source came up short")
+	case "eof":
+		return 0, io.EOF
+	}
+	return 0, errors.New("entropy source unavailable")
+}
 
 var charsets = [][]string{
 	{"a", "b", "c", "d", "e"},
@@ -153,6 +174,99 @@ func run(c *core.Case, st *core.CaseStats, seed int64) {
 		for _, b := range bad {
 			if b != "" {
 				st.Add(core.Mismatch{Fn: c.Fn, Kind: "value", Case: c, Input: in, Expected: "n runes of the character set from every concurrent call", Actual: b})
+				break
+			}
+		}
+	case "strswitch":
+		g, order := core.RawInt(c.A[0]), ""
+		json.Unmarshal(c.A[1], &order)
+		sets := map[string][]string{
+			"shrinking": {"ABCDEFGHIJKLMNOP", "wxyzuv€é", "中文😀", "01"},
+			"growing":   {"01", "中文😀", "wxyzuv€é", "ABCDEFGHIJKLMNOP"},
+			"mixed":     {"ABCDEFGH", "wxyz", "中文😀日本語żó", "01", "qrstuQRSTU", "é"},
+		}[order]
+		in := map[string]interface{}{"goroutines": g, "sets": sets}
+		st.Nontrivial++
+		var stop int32
+		var calls int64
+		var wg sync.WaitGroup
+		bad := make([]string, g)
+		randz.SetStrGeneratorCharSet(sets[0])
+		for w := 0; w < g; w++ {
+			wg.Add(1)
+			go func(w int) {
+				defer wg.Done()
+				defer func() {
+					if p := recover(); p != nil {
+						bad[w] = fmt.Sprint("panic: ", p)
+					}
+				}()
+				for k := 0; atomic.LoadInt32(&stop) == 0 && bad[w] == ""; k++ {
+					n := 40 + (k*13+w)%160
+					got := randz.String(n)
+					ok := false
+					for _, set := range sets {
+						if strings.Trim(got, set) == "" {
+							ok = true
+						}
+					}
+					if !ok || utf8.RuneCountInString(got) != n {
+						bad[w] = fmt.Sprintf("String(%d) = %q", n, got)
+					}
+					atomic.AddInt64(&calls, 1)
+				}
+			}(w)
+		}
+		for k := 0; k < 6000; k++ {
+			randz.SetStrGeneratorCharSet(sets[k%len(sets)])
+			if k%8 == 0 {
+				time.Sleep(20 * time.Microsecond)
+			}
+		}
+		atomic.StoreInt32(&stop, 1)
+		wg.Wait()
+		st.Calls += int(calls)
+		randz.SetStrGeneratorCharSet(randz.CHAR_SET)
+		for _, b := range bad {
+			if b != "" {
+				st.Add(core.Mismatch{Fn: c.Fn, Kind: "value", Case: c, Input: in, Expected: "n runes, all of one of the character sets configured during the call", Actual: b})
+				break
+			}
+		}
+	case "identropy":
+		rb, fault := core.RawInt(c.A[0]), ""
+		json.Unmarshal(c.A[1], &fault)
+		eff := core.RawInts(c.Out)[0]
+		el := int64(3600000)
+		start := time.Now().Add(-time.Duration(el) * time.Millisecond)
+		g := randz.NewIdGenerator(start, rb)
+		old := srand.Reader
+		srand.Reader = faultReader{fault}
+		type obs struct {
+			id            randz.ID
+			before, after int64
+		}
+		var got []obs
+		msg, p := core.Guard(func() {
+			for k := 0; k < 40; k++ {
+				before := time.Since(start).Milliseconds()
+				id := g.Generate()
+				got = append(got, obs{id, before, time.Since(start).Milliseconds()})
+			}
+		})
+		srand.Reader = old
+		st.Calls += 40
+		st.Nontrivial++
+		in := map[string]interface{}{"randBit": rb, "entropy_source": fault}
+		if p {
+			st.Add(core.Mismatch{Fn: c.Fn, Kind: "panic", Case: c, Input: in, Expected: "no panic", Actual: msg})
+			break
+		}
+		for _, o := range got {
+			ms := int64(o.id) >> uint(eff)
+			r := int64(o.id) & (int64(1)<<uint(eff) - 1)
+			if o.id < 0 || ms < o.before || ms > o.after || r < 0 {
+				st.Add(core.Mismatch{Fn: c.Fn, Kind: "value", Case: c, Input: in, Expected: fmt.Sprintf("ms in [%d,%d] above %d random bits", o.before, o.after, eff), Actual: []int64{int64(o.id), ms, r}})
 				break
 			}
 		}
